@@ -138,6 +138,19 @@ func c19Cases() []c19Case {
 			db.Where("name = ? AND id IN (?)", "x", sub).Find(&r)
 			return db.Where("age = ? AND (id IN (?) OR score IN (?))", v[0], sub, sub).Find(&r)
 		}},
+		// records carrying association values: the nested association statements are not sent either
+		{"assoc-create-graph", func(db *gorm.DB, v []int) *gorm.DB {
+			return db.Create(&Owner{Name: "o", Company: &Company{Name: "c"}, Profile: Profile{Bio: "b"}, Pets: []Pet{{Name: "p"}}})
+		}},
+		{"assoc-create-many2many", func(db *gorm.DB, v []int) *gorm.DB {
+			return db.Create(&Speaker{Name: "s", Langs: []Lang{{Name: "go"}, {ID: 4, Name: "ml"}}})
+		}},
+		{"assoc-save-full", func(db *gorm.DB, v []int) *gorm.DB {
+			return db.Session(&gorm.Session{FullSaveAssociations: true}).Save(&Owner{ID: 3, Name: "o", Pets: []Pet{{ID: 7, Name: "p"}}})
+		}},
+		{"assoc-delete-select", func(db *gorm.DB, v []int) *gorm.DB {
+			return db.Select("Pets").Delete(&Owner{ID: 3})
+		}},
 		{"rows", func(db *gorm.DB, v []int) *gorm.DB {
 			tx := db.Model(&Item{}).Where("age = ?", v[0])
 			rows, err := tx.Rows()
@@ -221,8 +234,8 @@ func H_C19_Twice(shape int) {
 			}
 		}
 	}
-	if c.name == "create-batch-size-session" || c.name == "create-in-batches" {
-		return // a create split into batches by the session exposes no single statement (outside the claim); only "nothing is sent" applies
+	if c.name == "create-batch-size-session" || c.name == "create-in-batches" || hasPrefix(c.name, "assoc-") {
+		return // several statements and no single exposed one (batches), or bound keys that only a real run generates (association graphs): only "nothing is sent" applies
 	}
 	verifrt.Assert(sql == first.Text, "C19.text-differs")
 	verifrt.Assert(len(dres.Statement.Vars) == len(first.Args), "C19.arg-count")
@@ -279,7 +292,7 @@ func H_C19_ToSQL(shape int) {
 			}
 		}
 	}
-	if c.name == "create-batch-size-session" || c.name == "create-in-batches" {
+	if c.name == "create-batch-size-session" || c.name == "create-in-batches" || hasPrefix(c.name, "assoc-") {
 		return
 	}
 	// the stub dialector's Explain returns the text unchanged
